@@ -121,7 +121,7 @@ namespace adept {
 #endif
       most_recent_gap_(gap_list_.end()),
       i_gradient_(0), n_allocated_gradients_(0), max_gradient_(0),
-      n_gradients_registered_(0),
+      n_gradients_initialized_(0), n_gradients_registered_(0),
       gradients_initialized_(false), 
 #ifdef ADEPT_STACK_THREAD_UNSAFE
       is_thread_unsafe_(true),
@@ -296,7 +296,9 @@ namespace adept {
       if (!gradients_are_initialized()) {
 	initialize_gradients();
       }
-      if (end_plus_one > max_gradient_) {
+      // Objects created after the gradients were initialized have no
+      // entry in the gradient list
+      if (end_plus_one > n_gradients_initialized_) {
 	throw gradient_out_of_range();
       }
       for (uIndex i = start, j = 0; i < end_plus_one; i++, j++) {
@@ -315,7 +317,9 @@ namespace adept {
       if (!gradients_are_initialized()) {
 	throw gradients_not_initialized();
       }
-      if (end_plus_one > max_gradient_) {
+      // Objects created after the gradients were initialized have no
+      // entry in the gradient list
+      if (end_plus_one > n_gradients_initialized_) {
 	throw gradient_out_of_range();
       }
       for (uIndex i = start, j = 0; i < end_plus_one; i++, j++) {
@@ -330,7 +334,9 @@ namespace adept {
       if (!gradients_are_initialized()) {
 	throw gradients_not_initialized();
       }
-      if (end_plus_one > max_gradient_) {
+      // Objects created after the gradients were initialized have no
+      // entry in the gradient list
+      if (end_plus_one > n_gradients_initialized_) {
 	throw gradient_out_of_range();
       }
       for (uIndex i = start, j = 0; i < end_plus_one; i+=src_stride, j+=target_stride) {
@@ -742,6 +748,10 @@ namespace adept {
     // calculation
     void initialize_gradients();
 
+    // Extend the vector of gradients with zeros to cover any active
+    // objects created since it was initialized
+    void extend_gradients();
+
     // Set to zero the gradients required by a Jacobian calculation
     /*
     void zero_gradient_multipass() {
@@ -796,6 +806,8 @@ namespace adept {
     uIndex i_gradient_;             // Current number of gradients
     uIndex n_allocated_gradients_;  // Number of allocated gradients
     uIndex max_gradient_;           // Max number of gradients to store
+    uIndex n_gradients_initialized_;// Number of gradients set to zero by
+				    // the last initialize_gradients()
     uIndex n_gradients_registered_; // Number of gradients registered
     bool gradients_initialized_;    // Have the gradients been
 				    // initialized?
